@@ -124,6 +124,9 @@ func renderPolicy(p policySpec) string {
 		if st.PageLimit > 0 {
 			fmt.Fprintf(&sb, "  pagination_limit = %d\n", st.PageLimit)
 		}
+		if st.FilterPath != "" {
+			fmt.Fprintf(&sb, "  list_scan_response_keys_filter_path = %s\n", strconv.Quote(st.FilterPath))
+		}
 		sb.WriteString("}\n")
 	}
 	return sb.String()
@@ -160,6 +163,9 @@ func renderPolicyJSON(p policySpec) string {
 		}
 		if st.PageLimit > 0 {
 			m["pagination_limit"] = st.PageLimit
+		}
+		if st.FilterPath != "" {
+			m["list_scan_response_keys_filter_path"] = st.FilterPath
 		}
 		paths[st.Pattern] = m
 	}
@@ -215,6 +221,7 @@ type implDecision struct {
 	LimitSet  bool     `json:"limit_present_after,omitempty"`
 	Limit     any      `json:"limit_after,omitempty"`
 	Granting  []string `json:"granting_policies,omitempty"`
+	Filter    string   `json:"response_keys_filter_path,omitempty"`
 }
 
 func implDecide(acl *ACL, q reqSpec) implDecision {
@@ -229,7 +236,7 @@ func implDecide(acl *ACL, q reqSpec) implDecision {
 		req.WrapInfo = &logical.RequestWrapInfo{TTL: time.Duration(q.WrapTTL) * time.Second}
 	}
 	res := acl.AllowOperation(nsCtx(q.NS), req, false)
-	d := implDecision{Allowed: res.Allowed, RootPrivs: res.RootPrivs, IsRoot: res.IsRoot}
+	d := implDecision{Allowed: res.Allowed, RootPrivs: res.RootPrivs, IsRoot: res.IsRoot, Filter: res.ResponseKeysFilterPath}
 	if v, ok := req.Data["limit"]; ok {
 		d.LimitSet, d.Limit = true, v
 	}
@@ -248,12 +255,13 @@ func implCapabilities(acl *ACL, ns, path string) []string {
 // ---- generators (random tier) ---------------------------------------------------------
 
 var (
-	genSegs       = []string{"a", "b", "c", "ab"}
-	genParamNames = []string{"x", "y", "z", "limit"}
-	genStrValues  = []string{"v1", "v2", "foo-1", "foo-2", "bar", "1", "true"}
-	genGlobValues = []string{"foo-*", "*-1", "*oo*", "v*"}
-	genCapsAll    = []string{"create", "read", "update", "patch", "delete", "list", "scan", "sudo", "deny"}
-	genNamespaces = []string{"", "n1/", "n1/n2/"}
+	genSegs        = []string{"a", "b", "c", "ab"}
+	genParamNames  = []string{"x", "y", "z", "limit"}
+	genStrValues   = []string{"v1", "v2", "foo-1", "foo-2", "bar", "1", "true"}
+	genGlobValues  = []string{"foo-*", "*-1", "*oo*", "v*"}
+	genCapsAll     = []string{"create", "read", "update", "patch", "delete", "list", "scan", "sudo", "deny"}
+	genNamespaces  = []string{"", "n1/", "n1/n2/"}
+	genFilterPaths = []string{"{{ .path }}{{ .key }}", "a/{{ .key }}"}
 )
 
 func genConcretePath(rng *kit.Rand, minSegs, maxSegs int) []string {
@@ -402,6 +410,16 @@ func genStanza(rng *kit.Rand, pattern string, constraints bool) stanzaSpec {
 	}
 	if rng.Chance(1, 3) {
 		st.PageLimit = 1 + rng.Intn(20)
+	}
+	if rng.Chance(1, 5) && st.Legacy == "" {
+		list, deny := false, false
+		for _, c := range st.Caps {
+			list = list || c == "list"
+			deny = deny || c == "deny"
+		}
+		if list && !deny {
+			st.FilterPath = kit.Pick(rng, genFilterPaths)
+		}
 	}
 	return st
 }
